@@ -1,8 +1,10 @@
 (* C07 Namespace and subpath structure cannot be forged or climb upwards *)
-From Coq Require Import List NArith Bool.
-From PM Require Import Base Text Model Skeleton Segs C07 Tables Consts.
-Import ListNotations.
-Notation cfg := src_cfg. Notation G := (string_shape src_cfg). Notation P := (ptype_shape src_cfg).
+Load "coq/props/Hdr".
+From PM Require Import Segs C07.
+Lemma src_rt : rt_ok cfg. Proof. apply conds_rt_ok. vm_compute. reflexivity. Qed.
+Lemma src_tbl : tbl_ok cfg. Proof. apply conds_tbl_ok. vm_compute. reflexivity. Qed.
+Lemma src_cfg_ok : cfg_ok cfg. Proof. exact (rt_cfg _ src_rt). Qed.
+Ltac sc := sidecond_with src_rt src_tbl.
 Theorem C07_generic_purl : forall s t p, parse cfg G s = Ok (t, p) ->
   exists r, WFr cfg r /\ s = asm r
    /\ p_ns p = join c_slash (map pdecode (raw_ns_pieces r)) /\ Forall good_ns_seg (map pdecode (raw_ns_pieces r))
